@@ -79,6 +79,12 @@ chk("C18",
     "Coq proof (list induction, idempotence of filter/update pairs, counting) + vm_compute table correspondence + documented-selection monitor",
     "DESIGN.md §4 C18")
 
+chk("C01",
+    "Coq theorems: the archive-count test passing implies two healthy archive copies on other nodes (for any node type and any state of the copy itself, given the unique (file,node) index); the delete task, for every batch, index and pattern of failing unlinks, issues each unlink at a moment when the index (as updated by its own earlier deletions) records two other healthy archive copies, unlinks only what it was handed, at most once, and changes no other row; what update_delete hands over (C15 model) is unwanted, tracked and not a pending source, removable copies only under space pressure. The statement for overlapping tasks is refuted in Coq (C01_interleaved_refuted) and reproduced on two real daemons (known finding KF-C01-1). Tie: guards, archive_count filter and the count-unlink-tidy-update order translated/checked each run (T1); delete_async on random tables with real files compared with the model in Coq; random multi-host histories on the real update_loop with the property evaluated at every destructive os-level call against the index at that instant, including 'no other task destroys a healthy copy' (T2).",
+    "Coq kernel+VM; translator fragment; daemon simulation harness and its interposition; tasks atomic w.r.t. one another in the theorems; sqlite unique index",
+    "Coq proof (counting split + induction over the batch with the evolving index) + regenerated guards tie + vm_compute correspondence + history monitors",
+    "DESIGN.md §4 C01")
+
 ALL = [f"C{i:02d}" for i in range(1, 21)]
 NA_REASON = "check not yet built in this revision (planned: see DESIGN.md §7); nothing is claimed for it"
 
